@@ -389,7 +389,7 @@ func writeEvidenceFile(cfg *Config, prop string, results []*HarnessResult, viola
 			"harness": r.H.Pkg + "." + r.H.Name, "theory": r.H.Mode.String(), "paths_explored": r.Paths, "paths_pruned_by_assume": r.PathsPruned,
 			"solver_queries": r.Queries, "solver_s": round2(r.SolverTime.Seconds()), "wall_s": round2(r.Wall.Seconds()),
 			"bounds": map[string]interface{}{"loop_unwind_per_site": r.H.Unwind, "obligation_timeout_s": r.H.OblTO.Seconds(), "max_paths": r.H.MaxPaths, "options": r.H.Opts},
-			"obligations": obls, "reachability_witnesses": r.Reaches, "fp_operations_encoded": r.FpOps, "doc": r.H.Doc,
+			"obligations": obls, "reachability_witnesses": r.Reaches, "fp_operations_encoded": r.FpOps, "doc": r.H.Doc, "paths_cut_at_unwind_bound": r.UnwindCuts, "paths_blocked_forever": r.Blocked,
 		}
 		if r.H.Conc {
 			hd["thread_path_combinations"] = r.ConcCombos
